@@ -29,6 +29,10 @@ def pi8 (s : Stack) : Outgoing × List (Dest × (Bool × Nat)) := (s.outgoing, s
 @[simp] theorem pi8_with_findLog (s : Stack) (x : List (Nat × Nat)) : pi8 { s with findLog := x } = pi8 s := rfl
 @[simp] theorem pi8_with_findMarks (s : Stack) (x : List (Nat × Nat)) : pi8 { s with findMarks := x } = pi8 s := rfl
 @[simp] theorem pi8_with_ansLog (s : Stack) (x : List (Nat × Addr × Nat × Nat)) : pi8 { s with ansLog := x } = pi8 s := rfl
+@[simp] theorem pi8_with_lisLog (s : Stack) (x : List (LId × Bool × SvcKey × Addr)) : pi8 { s with lisLog := x } = pi8 s := rfl
+@[simp] theorem pi8_logLis (s : Stack) (id : LId) (o : Bool) (k : SvcKey) (a : Addr) : pi8 (s.logLis id o k a) = pi8 s := rfl
+@[simp] theorem pi8_with_lisDup (s : Stack) (x : Bool) : pi8 { s with lisDup := x } = pi8 s := rfl
+@[simp] theorem pi8_markDup (s : Stack) (d : Bool) : pi8 (s.markDup d) = pi8 s := rfl
 @[simp] theorem pi8_logAnswer (s : Stack) (i : Nat) (a : Addr) (d : Nat) : pi8 (s.logAnswer i a d) = pi8 s := rfl
 @[simp] theorem pi8_markFind (s : Stack) (n : Nat) : pi8 (s.markFind n) = pi8 s := rfl
 @[simp] theorem pi8_with_offLog (s : Stack) (x : List (Nat × OEv × Nat)) : pi8 { s with offLog := x } = pi8 s := rfl
@@ -170,13 +174,13 @@ def pi8 (s : Stack) : Outgoing × List (Dest × (Bool × Nat)) := (s.outgoing, s
   rw [foldl_pres pi8 _ (fun s p => by frame_cases)]
 
 @[simp] theorem pi8_watchService (s : Stack) (f : Service) (l : Listener) : pi8 (s.watchService f l) = pi8 s := by
-  unfold watchService; simp only []; rw [pi8_replay]; rfl
+  unfold watchService; simp only []; rw [pi8_markDup, pi8_replay]; rfl
 @[simp] theorem pi8_stopWatchService (s : Stack) (f : Service) (l : Listener) : pi8 (s.stopWatchService f l) = pi8 s := by
   unfold stopWatchService; simp only []; split
   · simp
   · rw [pi8_replay]; rfl
 @[simp] theorem pi8_watchAllServices (s : Stack) (id : LId) : pi8 (s.watchAllServices id) = pi8 s := by
-  unfold watchAllServices; rw [pi8_replay]; rfl
+  unfold watchAllServices; rw [pi8_markDup, pi8_replay]; rfl
 @[simp] theorem pi8_stopWatchAllServices (s : Stack) (id : LId) : pi8 (s.stopWatchAllServices id) = pi8 s := by
   unfold stopWatchAllServices; split
   · simp
